@@ -7,6 +7,7 @@ from symx import stubs
 from harness.twin import Twin, make_scheduler
 
 SHIMS = {
+    "median": ["syne_tune.optimizer.schedulers.median_stopping_rule"],
     "sync": ["syne_tune.optimizer.schedulers.synchronous.hyperband_bracket", "syne_tune.optimizer.schedulers.synchronous.hyperband"],
     "dehb": ["syne_tune.optimizer.schedulers.synchronous.hyperband_bracket", "syne_tune.optimizer.schedulers.synchronous.dehb",
              "syne_tune.optimizer.schedulers.synchronous.dehb_bracket"],
@@ -65,13 +66,13 @@ def obligations(tier):
     sp = (("c1", (0, 1, 2)), ("c2", (0, 1, 2, 3)))
     for kind, extra in (("stopping", {}), ("promotion", {}), ("rush_stopping", {}), ("stopping", dict(brackets=2)), ("sync", {}), ("pbt", {}),
                         ("median", {}), ("fifo-rea", {}), ("dehb", {})):
-        E = {"median": 6, "rush_stopping": 7}.get(kind, 8) + (0 if quick else 1)
+        E = {"median": 7, "rush_stopping": 6}.get(kind, 8) + (0 if quick else 1)
         mt = 2 if kind in ("sync", "dehb") else 4
-        p = dict(kind=kind, W=2, T=3 if kind not in ("sync", "dehb") else 4, E=E, max_t=mt, **extra)
+        p = dict(kind=kind, W=3 if kind == "median" else 2, T=3 if kind not in ("sync", "dehb") else 4, E=E, max_t=mt, **extra)
         name = "C15.a[%s%s]" % (kind, ",B=2" if extra.get("brackets") else "")
         goals = ("end",) + {"stopping": ("stop",), "promotion": ("pause", "resume"), "rush_stopping": ("stop",), "sync": ("pause",),
                             "pbt": ("stop",), "median": ("stop",), "fifo-rea": ("complete",), "dehb": ("pause", "resume")}[kind] + (("resume",) if kind == "sync" else ())
-        obs.append(Ob(name, "props.c15:h_mirror", p, bounds=dict(T=p["T"], E=p["E"], W=2, max_t=p["max_t"]), goals=goals, split=sp, budget_s=1800,
+        obs.append(Ob(name, "props.c15:h_mirror", p, bounds=dict(T=p["T"], E=p["E"], W=p["W"], max_t=p["max_t"]), goals=goals, split=sp, budget_s=1800,
                       may_be_incomplete=not quick))
     obs.append(Ob("C15.b[tuning-status,N=3]", "props.c15:h_status_mirror", dict(N=3, T=2), bounds=dict(results=3, trials=2), goals=("end",), budget_s=600))
     return obs
